@@ -482,6 +482,11 @@ func (in *Interp) designator(v *Val, at *Val) (*Val, *Err) {
 		if f, ok := in.Cur.Binds[v.S]; ok && f.K == KFun {
 			return f, nil
 		}
+		if _, ok := in.Cur.Binds[v.S]; !ok && !strings.Contains(v.S, ":") {
+			// a name bound nowhere: the ordinary unbound-symbol error, raised by the builtin that was handed the
+			// designator (its frame is active) and located at the designator datum
+			return nil, in.errf(v, "error", "unbound symbol: %v", v.S)
+		}
 		return nil, &Err{Cond: "<unspecified>"}
 	}
 	return nil, in.errf(at, "error", "argument is not a function: %v", v)
